@@ -16,10 +16,20 @@
    * whether reset() while a call's Deferred is outstanding re-bases the grid;
    * with withCount, how many of the boundaries that elapsed *before* a reset()
      are still reported by the first call after it (0 .. all of them);
-   * the result of stop()/reset() on a loop that is not running.            *)
+   * the result of stop()/reset() on a loop that is not running.
+
+   reset() is NOT part of property C10 (it quantifies over intervals, start mode, clock
+   advances, function behaviours and stop()), and the property does not say what the
+   boundaries or the "boundaries elapsed" are once the timer was reset.  With
+   cfg.strict = FALSE (the verdict) a history is therefore checked, from its first
+   effective reset() on, only for the clauses that stay well defined: no overlap, no call
+   after start()'s Deferred fired, that Deferred exactly once.  Call times and counts after
+   a reset are then free.  cfg.strict = TRUE keeps the re-based grid described above; the
+   harness uses it only to report where the implementation differs (impl_drift).      *)
 EXTENDS Naturals, Integers, Sequences, FiniteSets
 
-VARIABLES cfg,      \* [iv |-> interval > 0, nowFlag |-> BOOLEAN, wc |-> BOOLEAN (withCount), t0 |-> time of start()]
+VARIABLES cfg,      \* [iv |-> interval > 0, nowFlag |-> BOOLEAN, wc |-> BOOLEAN (withCount), t0 |-> time of start(),
+                    \*  strict |-> BOOLEAN (see header)]
           now,      \* clock
           run,      \* "idle" | "running" | "stopreq" | "stopped" | "failed"
           inner,    \* TRUE while the Deferred returned by the latest call is unfired
@@ -41,7 +51,7 @@ vars == <<cfg, now, run, inner, base, due, lastDone, missed, fuzzy, nreset, lc, 
 Behs == {"ret", "raise", "defer", "stopret", "stopraise", "stopdefer"}
 
 NoCall == [t |-> -1, cnt |-> 0, beh |-> "none", due |-> 0, base |-> 0, prevDone |-> -1, prevNow |-> -1,
-           nsd |-> 0, ovl |-> FALSE, rb |-> FALSE]
+           nsd |-> 0, ovl |-> FALSE, rb |-> FALSE, loose |-> FALSE]
 
 InitWith(c) ==
     /\ cfg = c /\ now = c.t0
@@ -56,8 +66,12 @@ Bnd(b, x) == (x - b) \div cfg.iv
 NextB(b, c) == b + cfg.iv * (((c - b) \div cfg.iv) + 1)
 
 \* the count a call at time t may be given when m boundaries elapsed since the previous call
+\* a reset() happened and the verdict does not extend to timing/counts after it
+Loose == ~cfg.strict /\ nreset = 1
+
 CntOK(cnt, m, t, b, fz) ==
     IF ~cfg.wc THEN cnt = 0
+    ELSE IF Loose THEN cnt >= 0
     ELSE IF fz THEN cnt \in Bnd(b, t)..m
     ELSE cnt = m
 
@@ -65,7 +79,7 @@ CntOK(cnt, m, t, b, fz) ==
 \* b = grid origin in force, dueWas = boundary it was scheduled for (t for an immediate first call).
 CallEff(t, cnt, bh, b, dueWas, rb) ==
     /\ lc' = [t |-> t, cnt |-> cnt, beh |-> bh, due |-> dueWas, base |-> b,
-              prevDone |-> lastDone, prevNow |-> now, nsd |-> Len(sd), ovl |-> inner, rb |-> rb]
+              prevDone |-> lastDone, prevNow |-> now, nsd |-> Len(sd), ovl |-> inner, rb |-> rb, loose |-> Loose]
     /\ ncalls' = ncalls + 1 /\ sumc' = sumc + cnt
     /\ missed' = 0 /\ fuzzy' = FALSE
     /\ CASE bh = "ret"   -> /\ lastDone' = t /\ due' = NextB(b, t) /\ inner' = FALSE
@@ -105,12 +119,13 @@ StartLater ==
 Active == run \in {"running", "stopreq"}
 
 (* clock.advance(d): the call scheduled for `due` runs in the first advance that reaches it,
-   and observes the time at the end of the advance. *)
-AdvanceCall(d, bh) ==
-    /\ run = "running" /\ ~inner /\ due <= now + d
+   and observes the time at the end of the advance.  (xc: how far above the elapsed boundaries a
+   count is considered at all -- only matters when Loose.) *)
+AdvanceCall(d, bh, xc) ==
+    /\ run = "running" /\ ~inner /\ (due <= now + d \/ Loose)
     /\ now' = now + d
     /\ LET m == missed + Bnd(base, now + d) - Bnd(base, now) IN
-       \E cnt \in 0..m :
+       \E cnt \in 0..(m + xc) :
           /\ CntOK(cnt, m, now + d, base, fuzzy)
           /\ CallEff(now + d, cnt, bh, base, due, fuzzy)
           /\ last' = [e |-> "adv", d |-> d, res |-> "ok", calls |-> Obs(now + d, cnt, bh), sd |-> NewSd]
@@ -118,7 +133,7 @@ AdvanceCall(d, bh) ==
 
 AdvanceQuiet(d) ==
     /\ run # "idle"      \* start() happens at cfg.t0
-    /\ ~(run = "running" /\ ~inner /\ due <= now + d)
+    /\ (~(run = "running" /\ ~inner /\ due <= now + d) \/ Loose)
     /\ now' = now + d
     /\ missed' = IF Active THEN missed + Bnd(base, now + d) - Bnd(base, now) ELSE missed
     /\ last' = [e |-> "adv", d |-> d, res |-> "ok", calls |-> <<>>, sd |-> <<>>]
@@ -195,11 +210,11 @@ Due(c) == FirstAfter(c.base, IF c.prevDone > c.base THEN c.prevDone ELSE c.base)
 
 NoDrift ==      \* every later call: at the first boundary strictly after the previous completion,
                 \* in the first advance that reaches it
-    ncalls >= 2 => /\ lc.prevNow < lc.due /\ lc.due <= lc.t
-                   /\ lc.due = Due(lc)
+    (ncalls >= 2 /\ ~lc.loose) => /\ lc.prevNow < lc.due /\ lc.due <= lc.t
+                                   /\ lc.due = Due(lc)
 
 FirstCall ==    \* the first call: immediately for now=True, at start + iv otherwise
-    ncalls = 1 =>
+    (ncalls = 1 /\ ~lc.loose) =>
         IF cfg.nowFlag THEN lc.t = cfg.t0
         ELSE /\ lc.due <= lc.t /\ lc.prevNow < lc.due
              /\ lc.due = lc.base + cfg.iv
@@ -209,7 +224,7 @@ CountSum ==     \* withCount: the counts sum to the number of boundaries elapsed
     (cfg.wc /\ nreset = 0 /\ ncalls >= 1) =>
         sumc = ((lc.t - cfg.t0) \div cfg.iv) + (IF cfg.nowFlag THEN 1 ELSE 0)
 
-CountPositive == (cfg.wc /\ ncalls >= 1) => lc.cnt >= 1
+CountPositive == (cfg.wc /\ ncalls >= 1 /\ ~lc.loose) => lc.cnt >= 1
 
 StartDOnce ==   \* start()'s Deferred: exactly once on stop/failure, not before
     /\ Len(sd) <= 1
